@@ -7,6 +7,7 @@ import contextlib
 import torch
 
 import cirkit.backend.torch.compiler as CC
+import framework
 import leanmodel
 from cirkit.backend.torch.layers import TorchLayer
 
@@ -133,6 +134,13 @@ def check_fold_certificate(run, scen, rec, tc, flags) -> bool:
                       "groups must partition the layers, share key/arity, and in/out indices must name the locations of the inputs/outputs",
                       no_failing_input=True, broken="theorem C02.fold_sound: hypothesis FoldCert.valid fails on the real certificate")
         return False
+    # theorem C02.buildFolded_valid: Layered ordering => the model's certificate is valid (diagnostic counters)
+    if r.get("layered"):
+        run.extra["fold_layered_orderings"] = run.extra.get("fold_layered_orderings", 0) + 1
+        if not r.get("model_valid"):
+            raise framework.MachineryError("model certificate invalid on a Layered ordering: contradicts theorem C02.buildFolded_valid")
+    if r["model_same"]:
+        run.extra["fold_model_same"] = run.extra.get("fold_model_same", 0) + 1
     if not r["model_same"]:
         run.extra["fold_model_differs"] = run.extra.get("fold_model_differs", 0) + 1  # diagnostic only
     num_folds = [len(g) for g in cert["groups"]]
